@@ -9,7 +9,10 @@ BAD = -999999      # projection of a value that is not an integer in the specifi
 LAY_A = [[], [2]]
 LAY_B = [[3]]
 LAY_C = [[2, 2], []]
-LAYOUTS = [LAY_A, LAY_B, LAY_C]
+LAY_D = [[1], [], [3]]       # a one-element ARRAY next to a true scalar and a vector: shape (1,) is not shape ()
+LAY_E = [[1]]
+LAY_F = [[1, 1], [2]]
+LAYOUTS = [LAY_A, LAY_B, LAY_C, LAY_D, LAY_E, LAY_F]
 
 PROPS_FULL = [("nan", 0), ("pinf", 0), ("ninf", 0), ("num", -1), ("num", 0), ("num", 1), ("num", 2),
               ("num", 3), ("num", 8), ("num", 800)]
@@ -160,6 +163,15 @@ def gen_cases(rng, tier, nm, it):
     # exhaustive: every pair of proposals (cycled), every stop position in the first 3 steps, 2 solve calls
     plist = PROPS_FULL
     base_lay = [lays[i % 3] for i in range(nm)]
+    # every layout, alone and as a member of a coupled pair, with a layout change on the way
+    for k, lay in enumerate(lays):
+        other = lays[(k + 1) % len(lays)]
+        sc = [dict(p=("num", 2), s=False), dict(p=("num", 1), s=False, newlay=other), dict(p=("num", 2), s=False, newlay=lay)]
+        if nm == 1:
+            cases.append(dict(nm=1, iter=it, t0=0, layouts=[lay], scripts=[sc], calls=[(8, 8, 2), (8, 8, 2)], coupler=False))
+        else:
+            cases.append(dict(nm=nm, iter=it, t0=0, layouts=[lays[(k + i) % len(lays)] for i in range(nm)],
+                              scripts=[sc for _ in range(nm)], calls=[(8, 8, 2)]))
     if nm == 1:
         for p1, p2 in itertools.product(plist, plist):
             for stop_at in (None, 0, 1):
